@@ -154,21 +154,37 @@ impl Case {
         self.present.contains(&(l, c))
     }
 
-    /// Winners under every admissible reading of the statement
-    /// (`None` = nothing found).
+    /// Winners under every admissible reading of the statement (`None` =
+    /// nothing found).  Locations are strictly ordered — the importer's
+    /// directory first, then each load path in order, the first existing
+    /// candidate of the first location that has one wins — and two points stay
+    /// open: whether "the matching .import.scss variant before each .scss
+    /// candidate" means pairwise or grouped order (R-b), and whether the root's
+    /// directory counts as a load path for an importer in a sub-directory (R-c).
     fn expected(&self) -> BTreeSet<Option<String>> {
+        self.winners(false)
+    }
+
+    /// What rsass' structure gives instead: within one lookup round
+    /// (importer-relative url; then url unchanged) the candidate list is the
+    /// OUTER loop and the loader's directories the inner one, so an earlier
+    /// candidate in a later directory beats a later candidate in an earlier
+    /// directory (known finding F7).
+    fn candidate_major_within_round(&self) -> BTreeSet<Option<String>> {
+        self.winners(true)
+    }
+
+    fn winners(&self, cm_within_round: bool) -> BTreeSet<Option<String>> {
         let n = cand_names(self.kind, &self.url).len();
         let mut out = BTreeSet::new();
-        // R-b: candidate order for @import
         let orders: Vec<Vec<usize>> = if self.kind == LoadKind::Import && n == 10 {
             vec![
-                (0..n).collect(),                       // grouped (the list as named)
-                vec![0, 2, 1, 3, 4, 6, 5, 7, 8, 9],     // pairwise
+                (0..n).collect(),                   // grouped (the list as named)
+                vec![0, 2, 1, 3, 4, 6, 5, 7, 8, 9], // pairwise
             ]
         } else {
             vec![(0..n).collect()]
         };
-        // R-c: is the root's directory a load path for an importer in a sub-directory?
         let lp_lists: Vec<Vec<Loc>> = {
             let mut lps = vec![];
             if self.nlp >= 1 {
@@ -187,26 +203,31 @@ impl Case {
         };
         for order in &orders {
             for lps in &lp_lists {
-                let mut locs = vec![Loc::Rel];
-                locs.extend(lps.iter().copied());
-                // R-a: location major
-                let lm = locs
-                    .iter()
-                    .find_map(|l| order.iter().find(|c| self.has(*l, **c)).map(|c| self.path_of(*l, *c)));
-                out.insert(lm);
-                // R-a: candidate major over all locations
-                let cm = order
-                    .iter()
-                    .find_map(|c| locs.iter().find(|l| self.has(**l, *c)).map(|l| self.path_of(*l, *c)));
-                out.insert(cm);
-                // R-a: relative location first, then candidate major over the load paths
-                let rel = order.iter().find(|c| self.has(Loc::Rel, **c)).map(|c| self.path_of(Loc::Rel, *c));
-                let cm2 = rel.or_else(|| {
-                    order
+                if !cm_within_round {
+                    let mut locs = vec![Loc::Rel];
+                    locs.extend(lps.iter().copied());
+                    let lm = locs
                         .iter()
-                        .find_map(|c| lps.iter().find(|l| self.has(**l, *c)).map(|l| self.path_of(*l, *c)))
-                });
-                out.insert(cm2);
+                        .find_map(|l| order.iter().find(|c| self.has(*l, **c)).map(|c| self.path_of(*l, *c)));
+                    out.insert(lm);
+                } else if self.subdir {
+                    // round 1: the importer's directory; round 2: candidates x (root directory, load paths)
+                    let rel = order.iter().find(|c| self.has(Loc::Rel, **c)).map(|c| self.path_of(Loc::Rel, *c));
+                    let w = rel.or_else(|| {
+                        order
+                            .iter()
+                            .find_map(|c| lps.iter().find(|l| self.has(**l, *c)).map(|l| self.path_of(*l, *c)))
+                    });
+                    out.insert(w);
+                } else {
+                    // one round: candidates x (importer's directory = root directory, load paths)
+                    let mut locs = vec![Loc::Rel];
+                    locs.extend(lps.iter().copied());
+                    let w = order
+                        .iter()
+                        .find_map(|c| locs.iter().find(|l| self.has(**l, *c)).map(|l| self.path_of(*l, *c)));
+                    out.insert(w);
+                }
             }
         }
         out
@@ -403,6 +424,8 @@ pub fn judge(case: &Case, stats: &mut Stats) -> (Judgement, Option<Outcome>) {
         _ => false,
     };
     sig.push_str(&format!(" observed_decoy={}", u8::from(decoy)));
+    let cm = obs_opt.as_ref().is_some_and(|o| case.candidate_major_within_round().contains(o));
+    sig.push_str(&format!(" candidate_major_within_round={}", u8::from(cm && !decoy)));
     sig.push_str(&format!(" observed={}", match &obs {
         Observed::Winner(_) => "file",
         Observed::NotFound => "notfound",
@@ -574,11 +597,12 @@ pub fn case_for(index: u64, tier: Tier, rng: &mut Rng) -> (Case, &'static str) {
     let subdir = rng.chance(1, 2);
     let deep = subdir && rng.chance(1, 3);
     let nlp = 1 + rng.usize(2);
-    let url: String = match rng.below(10) {
+    let url: String = match rng.below(11) {
         0..=4 => "u".into(),
         5 | 6 => "s/u".into(),
         7 => "u.scss".into(),
         8 => "s/u.scss".into(),
+        9 => "u.SCSS".into(),
         _ => "u.x".into(),
     };
     let n = cand_names(kind, &url).len();
@@ -757,7 +781,7 @@ impl Prop for C04 {
     fn assumptions(&self) -> Vec<String> {
         vec![
             "SimFs has POSIX lexical path semantics without symlinks".into(),
-            "where the statement is ambiguous the union of the readings is accepted; the probe reading_disagreements counts such cases".into(),
+            "locations are strictly ordered (importer's directory, then each load path); only the pairwise/grouped import-only order and whether the root directory is a load path for a sub-directory importer are left open (union accepted; probe reading_disagreements)".into(),
             "an existing .css target of @import may be loaded or emitted verbatim (the statement only fixes the not-found case)".into(),
         ]
     }
